@@ -24,12 +24,15 @@ def sh(cmd, cwd, timeout=1500):
 def main():
     src, pid, k = sys.argv[1], sys.argv[2], sys.argv[3]
     extra = {}
+    rnd = ""
     a = sys.argv[4:]
     while a:
         if a[0] == "--check-rc":
             extra["check_exit_code"] = int(a[1]); a = a[2:]
         elif a[0] == "--check-note":
             extra["check_note"] = a[1]; a = a[2:]
+        elif a[0] == "--round":
+            rnd = a[1]; a = a[2:]
         else:
             a = a[1:]
     d = os.path.join(src, pid, k)
@@ -98,7 +101,7 @@ def main():
     res["confirmed"] = good
     print(json.dumps(res, indent=1))
     if good:
-        dst = os.path.join(VERIF, "seeded", "%s-%s" % (pid, k))
+        dst = os.path.join(VERIF, "seeded", "%s-%s%s" % (pid, (rnd + "-") if rnd else "", k))
         os.makedirs(dst, exist_ok=True)
         shutil.copy(os.path.join(d, "patch.diff"), dst)
         for f in demos:
